@@ -1132,15 +1132,20 @@ func simpler(c *Case) []Case {
 
 func minimise(c *Case, sig string) Case {
 	cur := clone(c)
-	for round := 0; round < 25; round++ {
+	deadline := time.Now().Add(30 * time.Second)
+	for round := 0; round < 25 && time.Now().Before(deadline); round++ {
 		cands := simpler(&cur)
 		if len(cands) == 0 {
 			break
 		}
-		res := runBatch(cands)
+		// every candidate is executed twice (the candidates of a round run
+		// concurrently); it is taken when both executions show the signature
+		first := runBatch(cands)
+		second := runBatch(cands)
+		same := func(r outcome) bool { return r.o.Harness == "" && !r.v.Perturbed && r.v.Sig == sig }
 		next := -1
 		for k := range cands {
-			if res[k].o.Harness == "" && !res[k].v.Perturbed && res[k].v.Sig == sig && confirmed(&cands[k], sig) {
+			if same(first[k]) && same(second[k]) {
 				next = k
 				break
 			}
